@@ -233,7 +233,7 @@ func NewMatchField[Int constraints.Integer | *big.Int | ~[]byte, Mask constraint
 		var maskInt *big.Int
 		length /= 2
 		if len(mask) != 3 || mask[2] == 1 {
-			value = value.Lsh(value, uint(mask[0]))
+			value = new(big.Int).Lsh(value, uint(mask[0]))
 		}
 		if len(mask) == 1 {
 			maskInt = rangeMask(uint(mask[0]), uint(value.BitLen()))
